@@ -13,6 +13,7 @@ Extraction "C05_model.ml" wire_anchor
   layout_stride_stride_guard bitset_str_guard to_string_guard format_escaped_guard
   pre_range_fits pre_both_nonnull pre_bitset_str pre_to_string array_front array_back array0_index opt_arrow exp_arrow
   pre_opt_arrow pre_exp_arrow
+  str_iter_range_guard str_iter_range_site pre_iter_range fmt_dfa
   static_set_ctor_site copy_ptrs_site linalg_add_site linalg_mvp_site bitset_str_site span_subspan_site
   str_step str_pre_ok str_pre_doc str_make str_ctor_fill str_make_w str_ctor_fill_w str_make_16 str_ctor_fill_16 str_size str_index str_front str_back
   str_replace str_replace_ptr str_replace_cstr str_replace5.
